@@ -3,17 +3,20 @@
 usage: tools/seedcheck.py [--tier quick] [ids...]   prints one line per change and writes seeded/RESULTS.md when run without ids"""
 import sys, os, json, glob, argparse, subprocess, re
 V = os.path.dirname(os.path.dirname(os.path.abspath(__file__)))
-ap = argparse.ArgumentParser(); ap.add_argument("ids", nargs="*"); ap.add_argument("--tier", default="quick"); a = ap.parse_args()
-rows = []
-for f in sorted(glob.glob(os.path.join(V, "seeded", "*", "meta.json"))):
+ap = argparse.ArgumentParser(); ap.add_argument("ids", nargs="*"); ap.add_argument("--tier", default="quick"); ap.add_argument("--jobs", type=int, default=1); a = ap.parse_args()
+from concurrent.futures import ThreadPoolExecutor
+def one(f):
     m = json.load(open(f))
-    if a.ids and m["id"] not in a.ids: continue
     r = subprocess.run([sys.executable, os.path.join(V, "tools", "mutcheck.py"), "--patch", os.path.join(os.path.dirname(f), "patch.diff"), "--check", m["property"], "--tier", a.tier], capture_output=True, text=True)
     mm = re.search(r"rc=(\d+) keys=(.*)", r.stdout)
     rc = int(mm.group(1)) if mm else -1; keys = mm.group(2) if mm else r.stdout[-200:] + r.stderr[-200:]
     verdict = "CAUGHT" if rc == 1 else ("MISSED" if rc == 0 else "INCONCLUSIVE")
     print("%-8s %s %-8s %s %s" % (m["id"], m["property"], a.tier, verdict, keys[:200]), flush=True)
-    rows.append((m["id"], m["property"], verdict, keys))
+    return (m["id"], m["property"], verdict, keys)
+def natural(f):
+    i = os.path.basename(os.path.dirname(f)); x, y = i.split("-"); return (int(y), x)
+files = [f for f in sorted(glob.glob(os.path.join(V, "seeded", "*", "meta.json")), key=natural) if not a.ids or json.load(open(f))["id"] in a.ids]
+with ThreadPoolExecutor(a.jobs) as ex: rows = list(ex.map(one, files))
 if not a.ids:
     with open(os.path.join(V, "seeded", "RESULTS.md"), "w") as f:
         f.write("# Seeded changes against the current checks (tier=%s), written by tools/seedcheck.py\n\ncaught %d / %d\n\n| id | check | verdict | first keys |\n|---|---|---|---|\n" % (a.tier, sum(r[2] == "CAUGHT" for r in rows), len(rows)))
